@@ -4,3 +4,4 @@ pub mod print;
 pub mod prng;
 pub mod run;
 pub mod ser;
+pub mod srcdict;
